@@ -239,6 +239,7 @@ func c33(r *core.Report, p *core.Prog, thorough bool) {
 	r.Explain = "Decided (admission clauses): a VRF share enters a round only after verifyVRFShare returned true for that very share (regular and cached path); verifyVRFShare returns true only after the share decoded and the DKG verified it for the sender's id; the seed is computed only when at least threshold shares are present and only from a successfully recovered group signature; share and signer-id vectors are built pairwise in one loop iteration. The recovery being independent of which threshold subset is used is a mathematical fact (assumed). Not decided: uniqueness of the recovered group signature."
 	r.Rule("C33.admission", "every call of Round.AddVRFShare in the miner is dominated by verifyVRFShare(round, share, …) == true on the same share")
 	r.Rule("C33.verify", "verifyVRFShare: `return true` is dominated by a successful SetHexString and dkg.VerifySignature(share, msg, ComputeIDdkg(sender id)) == true")
+	r.Rule("C33.verify-key", "the DKG method verifyVRFShare relies on (DKG.VerifySignature) answers with sig.Verify(gmpk[id], msg) unchanged for every id: the key is the public key share derived from the published mpks, never a locally held one")
 	r.Rule("C33.threshold", "ThresholdNumBLSSigReceived: the group signature is recovered only when len(shares) >= threshold, and the beacon output is the hash of the recovered signature")
 	r.Rule("C33.pairing", "getVRFShareInfo appends the share and the signer's BLS id of the same share in the same loop iteration")
 	vf := p.Func(pkgMiner + ".verifyVRFShare")
@@ -297,6 +298,12 @@ func c33(r *core.Report, p *core.Prog, thorough bool) {
 		idv, _ := core.BaseObject(a[2])
 		idc, _ := core.CallOf(idv)
 		r.Check(describe(a[1]) == "blsMsg" && idc != nil && strings.HasSuffix(core.CalleeName(idc.Common()), ".ComputeIDdkg") && strings.Contains(describe(idc.Call.Args[0]), "GetParty"), "C33.verify", "verifyVRFShare:args", p.Pos(vs[0].Pos()), "verified for the round message under the sender's id: "+describe(a[1])+" / "+describe(a[2]))
+	}
+	if dv := p.Func("(*" + pkgTBLS + ".DKG).VerifySignature"); dv != nil {
+		okK, d := c34VerifySignatureShape(dv)
+		r.Check(okK, "C33.verify-key", "DKG.VerifySignature", p.Pos(dv.Pos()), "a share counts only if it verifies against the sender's public key share gmpk[id]; "+d)
+	} else {
+		r.Unresolved("C33.verify-key", "DKG.VerifySignature")
 	}
 	// ---- threshold
 	th := p.Func("(*" + pkgMiner + ".Chain).ThresholdNumBLSSigReceived")
